@@ -8,7 +8,12 @@ import (
 	"github.com/wolimst/lib-secs2-hsms-go/pkg/ast"
 )
 
-func registerMore(add func(PropDef)) {}
+func registerMore(add func(PropDef)) {
+	add(PropDef{ID: "C09", Suites: func() []Suite { return suiteC09(nil) },
+		Rule: "templates of all node kinds (nesting <= 4, 35% variable slots, no ellipsis) x assignments (each variable skipped with probability 1/4, typed Go values of every accepted kind, 25% of the cases with out-of-domain or wrongly typed values, unknown keys) x splits of the assignment into 2-4 successive fills; oracles on the real code: filled = directly constructed (values substituted in the template description and built through the factories), several steps = one step; every operation also compared with the Lean model; messages: fill + producers in both orders vs NewHSMSDataMessage"})
+	add(PropDef{ID: "C10", Suites: func() []Suite { return suiteC10(nil) },
+		Rule: "list templates with nested ellipses (depth <= 3, counts 0..3; deeper and counts up to 12 in a second suite) x partial or total assignments of repeat counts; result compared with the Lean model of the expansion; oracles on the real code: count law (n+1)*p + (len-p-1), no duplicate names, remaining ellipses renumbered in order, every generated name addressable by a later fill"})
+}
 
 // implEvalMore: operations added after the first round.
 func implEvalMore(t []string) (string, bool) {
